@@ -4,6 +4,7 @@ import (
 	stdjson "encoding/json"
 	"fmt"
 	"reflect"
+	"regexp"
 	"strings"
 
 	"github.com/jsightapi/jsight-schema-core/openapi"
@@ -22,6 +23,8 @@ type pdigest struct {
 	Panic   string `json:"panic,omitempty"`
 }
 
+var pipeBlanksRE = regexp.MustCompile(`[ \t]*\|[ \t]*`)
+
 func normComments(v any) any {
 	switch t := v.(type) {
 	case map[string]any:
@@ -29,6 +32,13 @@ func normComments(v any) any {
 			if k == "Comment" {
 				if s, ok := x.(string); ok {
 					t[k] = strings.Join(strings.Fields(s), " ")
+					continue
+				}
+			}
+			if k == "Value" && t["TokenType"] == "reference" {
+				// the AST keeps a type choice as written: blanks around `|` are layout
+				if s, ok := x.(string); ok {
+					t[k] = pipeBlanksRE.ReplaceAllString(s, " | ")
 					continue
 				}
 			}
@@ -155,6 +165,9 @@ func oneFactorLayouts() []gen.Layout {
 	mod(func(l *gen.Layout) { l.TrailBlanks = true })
 	mod(func(l *gen.Layout) { l.AnnGap = 3 })
 	mod(func(l *gen.Layout) { l.BlankLines = true })
+	mod(func(l *gen.Layout) { l.PipeStyle = 1 })
+	mod(func(l *gen.Layout) { l.PipeStyle = 2 })
+	mod(func(l *gen.Layout) { l.PipeStyle = 3 })
 	return out
 }
 
@@ -325,7 +338,7 @@ func init() {
 				r.Violate(clause, "replay", what, c)
 			}
 		},
-		Rule:               "every generated project model (accepted ones and, one in four, possibly rejected ones) is printed under the default layout, under 19 one-factor variations (CRLF, CR, indentation, /* */ annotations single- and multi-line, quoted rule names, tight/airy rule spacing, key-colon spacing, leading/trailing blank lines, # line-end comments, ### block comments, compact containers, blanks before line ends, annotation gap, blank lines between members) and under 6 random combinations; every repository test-corpus literal is compared with its LF->CRLF, LF->CR, leading/trailing blank and blank-line transforms. All presentations of one schema must give the same verdict code and, when accepted, the same AST (notes modulo blank runs), example, used-type list and OpenAPI text. distinct_nontrivial = distinct models / (literal, transform) pairs (hashed).",
+		Rule:               "every generated project model (accepted ones and, one in four, possibly rejected ones) is printed under the default layout, under 22 one-factor variations (CRLF, CR, indentation, /* */ annotations single- and multi-line, quoted rule names, tight/airy rule spacing, key-colon spacing, leading/trailing blank lines, # line-end comments, ### block comments, compact containers, blanks before line ends, annotation gap, blank lines between members, blanks around the `|` of a type choice) and under 6 random combinations; every repository test-corpus literal is compared with its LF->CRLF, LF->CR, leading/trailing blank and blank-line transforms. All presentations of one schema must give the same verdict code and, when accepted, the same AST (notes modulo blank runs), example, used-type list and OpenAPI text. distinct_nontrivial = distinct models / (literal, transform) pairs (hashed).",
 		MinNontrivialQuick: 10000, MinNontrivialThorough: 200000,
 		Assumptions: []string{"error positions and messages are not compared (only the code)", "trailing padding is not applied to texts that end inside a token (code 303 or an error within the last two bytes)",
 			"notes avoid '#', '*/' and a leading '{' or '-' (they are syntax, not layout)"},
